@@ -32,6 +32,8 @@ def depth_of(t, base):
     """number of one-byte front cuts from base to t (ref(subslice(..,1,0,True)) chain), or None"""
     d = 0
     while t != base:
+        if t is None:
+            return None
         if t[0] == "ref" and t[1][0] == "subslice" and t[1][2:] == (1, 0, True):
             inner = t[1][1]
             t = sym.mk_ref(inner)
@@ -134,12 +136,18 @@ def integer(ctx, prog, F, b, ty):
         return
     LC, LN = ("L", C), ("L", N)
     hC = head(LC, "front")
+    # the digit loop is the loop that moves the byte cursor; rounds of any other loop of the function are not its rounds
+    dl = {e[1] for p in paths for e in p.events if e[0] == "loop" and C in dict(e[2])}
+    if len(dl) == 1:
+        backs = [p for p in backs if p.value in dl]
     # ---- groups by how many bytes were consumed before the loop
     groups = {}
     for p in paths:
         for e in p.events:
             if e[0] == "loop":
                 init = dict(e[2])
+                if C not in init:
+                    continue            # another loop of the function (not the digit loop)
                 d = depth_of(init.get(C), B0)
                 groups.setdefault(d, []).append((p, init))
     want_groups = {1, 2} if signed else {1}
